@@ -100,6 +100,8 @@ func cmdRun(args []string) int {
 		for _, f := range files {
 			cfg.Overlay["zz_vh_"+filepath.Base(f)] = f
 		}
+		instrument := wantsInstrument(files)
+		cfg.Instrument = instrument
 		for _, c := range []string{"vf_engine.go", "vf_lib.go"} {
 			b, err := os.ReadFile(filepath.Join(verifDir, "harness", "common", c))
 			if err != nil {
@@ -107,6 +109,9 @@ func cmdRun(args []string) int {
 				return 2
 			}
 			cfg.OverlaySrc["zz_"+c] = []byte(strings.Replace(string(b), "package PKG", "package "+pkgName, 1))
+			if c == "vf_engine.go" {
+				cfg.VfDecls = b
+			}
 		}
 		tl := time.Now()
 		p, err := gosym.Load(cfg)
@@ -149,7 +154,7 @@ func cmdRun(args []string) int {
 			}
 		}
 		// decide
-		rc := decide(*prop, hd, files, pkgName, sums, ev, !*noReplay)
+		rc := decide(*prop, hd, files, pkgName, sums, ev, !*noReplay, instrument)
 		if rc > exit {
 			exit = rc
 		}
